@@ -438,6 +438,24 @@ def banner_limits(server: bool, nlines: int, linelen: int, verlen: int, nl: bool
     return not out.closed and started == [1]
 
 
+ATTR_FLAGS = [0, 0x1, 0x2, 0x4, 0x8, 0x10, 0x20, 0x28, 0x40, 0x80, 0x100, 0x200, 0x400, 0x1000, 0x2000, 0x8000,
+              0x80000000, 0x8000000d, 0x1fd, 0xffffffff]
+
+
+def sftp_attrs_bytes(version: int, fi: int, tail: bytes) -> bool:
+    """SFTPAttrs.decode / SFTPName.decode on a flag word followed by arbitrary
+    bytes: a value, or SFTPError / PacketDecodeError (which the packet loops
+    turn into a status reply) - nothing else."""
+    from asyncssh import sftp as S
+    flags = pick(ATTR_FLAGS, fi)
+    data = HdrBytes(list(flags.to_bytes(4, 'big')), tail)
+    try:
+        S.SFTPAttrs.decode(SSHPacket(data), version)
+    except (S.SFTPError, PacketDecodeError):
+        pass
+    return True
+
+
 def rsa_blob(e: int, n: int) -> bool:
     """A well-framed ssh-rsa public key blob with arbitrary small parameters is
     a key or KeyImportError - nothing else (one bad line must not abort a whole
@@ -526,6 +544,11 @@ OBLIGATIONS = [
        shards=dict(server=[True, False]), timeout=200,
        functions=[C.SSHConnection._recv_version, C.SSHConnection._recv_data],
        bounds='banner line count in {0,1,3,1023,1024,1025,1030} x line length in {0,1,80,8190,8191,8192,9000} x version payload length in {0,1,200,246,247,248,300} x newline present or not x role'),
+    Ob('sftp_attrs_bytes', sftp_attrs_bytes, sym=dict(fi=R(0, 19)),
+       shards=dict(version=[4, 6], L=[0, 4]), thorough_shards=dict(version=[3, 4, 5, 6], L=[0, 1, 4, 8, 9, 13], fi=list(range(20))),
+       timeout=300, thorough_timeout=600,
+       functions=['asyncssh.sftp.SFTPAttrs.decode'],
+       bounds='20 attribute flag words (single bits, combinations, all ones) followed by arbitrary bytes of length {0,4} (thorough up to 13, flag word sharded), versions 4/6 (thorough 3..6)'),
     Ob('rsa_blob', rsa_blob, sym=dict(e=R(-2, 6), n=R(-2, 20)), timeout=120,
        functions=[PK.decode_ssh_public_key], bounds='ssh-rsa blob, e in -2..6, n in -2..20'),
     Ob('key_line', key_line, sym=dict(e=R(-2, 6), n=R(-2, 20)), timeout=120,
@@ -534,8 +557,8 @@ OBLIGATIONS = [
 
 # symbolic byte-string parameters whose length is the shard value L
 for _o in OBLIGATIONS:
-    if _o.name in ('conn_payload', 'chan_payload', 'packet_getters', 'der_bytes'):
-        _o.bytes_param = 'body' if 'payload' in _o.name else 'content' if _o.name == 'der_bytes' else 'data'
+    if _o.name in ('conn_payload', 'chan_payload', 'packet_getters', 'der_bytes', 'sftp_attrs_bytes'):
+        _o.bytes_param = 'body' if 'payload' in _o.name else 'content' if _o.name == 'der_bytes' else 'tail' if _o.name == 'sftp_attrs_bytes' else 'data'
 
 MANIFEST = dict(
     engines='A',
